@@ -216,6 +216,52 @@ pub fn check_case(c: &Case, label: &str) -> CaseResult {
     };
     let cap = c.input.len() + 2;
     let r = catch(|| -> Result<(bool, Vec<&'static str>), (String, String)> {
+        // the one-shot entry points of both APIs (and, under the default
+        // options, the functions that take no options) agree with each other
+        {
+            type R = Result<MV, String>;
+            let val = |r: lexpr::parse::Result<Value>| -> R { r.map(|v| MV::from_value(&v)).map_err(|e| e.to_string()) };
+            let dat = |r: lexpr::parse::Result<lexpr::Datum>| -> R { r.map(|d| MV::from_value(d.value())).map_err(|e| e.to_string()) };
+            let opts = q.to_lexpr();
+            let input = &c.input[..];
+            let mut results: Vec<(&'static str, R)> = vec![
+                ("from_slice_custom", val(lexpr::from_slice_custom(input, opts))),
+                ("datum::from_slice_custom", dat(lexpr::datum::from_slice_custom(input, opts))),
+                ("from_reader_custom", val(lexpr::from_reader_custom(Cursor::new(input), opts))),
+                ("datum::from_reader_custom", dat(lexpr::datum::from_reader_custom(Cursor::new(input), opts))),
+            ];
+            if let Ok(s) = std::str::from_utf8(input) {
+                results.push(("from_str_custom", val(lexpr::from_str_custom(s, opts))));
+                results.push(("datum::from_str_custom", dat(lexpr::datum::from_str_custom(s, opts))));
+            }
+            if c.q == QOpt::default_set().index() {
+                results.push(("from_slice", val(lexpr::from_slice(input))));
+                results.push(("datum::from_slice", dat(lexpr::datum::from_slice(input))));
+                results.push(("from_reader", val(lexpr::from_reader(Cursor::new(input)))));
+                results.push(("datum::from_reader", dat(lexpr::datum::from_reader(Cursor::new(input)))));
+                if let Ok(s) = std::str::from_utf8(input) {
+                    results.push(("from_str", val(lexpr::from_str(s))));
+                    results.push(("datum::from_str", dat(lexpr::datum::from_str(s))));
+                    results.push(("str::parse", val(s.parse::<Value>())));
+                }
+            }
+            // within one source kind the two APIs agree to the letter (value,
+            // or error message with its location); across source kinds values
+            // and error messages agree (locations may differ: C06 and C19 own that)
+            let source_of = |n: &str| if n.contains("slice") { 0 } else if n.contains("reader") { 1 } else { 2 };
+            let strip = |r: &R| -> R { r.clone().map_err(|e| err_text_str(&e).to_string()) };
+            for (i, (name, r)) in results.iter().enumerate() {
+                for (name2, r2) in &results[..i] {
+                    let same = if source_of(name) == source_of(name2) { r == r2 } else { strip(r) == strip(r2) };
+                    if !same {
+                        return Err((
+                            format!("entry-point={}", name),
+                            format!("{} gives {} but {} gives {}", name, short(r), name2, short(r2)),
+                        ));
+                    }
+                }
+            }
+        }
         // value API
         let (vals, vterm): (Vec<Value>, Term) = with_parser!(c, q, |p| {
             let mut out = Vec::new();
